@@ -22,6 +22,11 @@ from .values import (
 _cnt = itertools.count()
 
 
+# opt-in NaN model (ctx.ghost["nan_model"]): NaN is a distinguished, otherwise unconstrained real; isnan(x) := x == NANV.  Only used by
+# contracts that state which entries are missing; NaN poisoning of arithmetic is NOT modelled (bounded tiers check finiteness).
+NANV = z3.Real("NaN")
+
+
 def ivar(prefix="i"):
     return z3.Int(f"{prefix}!{next(_cnt)}")
 
@@ -332,8 +337,29 @@ class VTensor(V):
                 idx.extend(unflatten(d.atoms, e))
         return self.elem(idx)
 
+    def visible_extents(self):
+        """the extents Python code sees: for a boolean-mask selection (kept in place, see m_masked_select) the masked trailing dims
+        collapse into ONE dim whose extent is the number of selected entries, COUNT(mask) -- an uninterpreted count with
+        0 <= COUNT <= numel(mask)"""
+        mask = self.meta.get("masked_by") if isinstance(self.meta, dict) else None
+        if mask is None:
+            return [d.size for d in self.dims]
+        k = len(mask.dims)
+        cnt = mask.meta.get("count_symbol")
+        if cnt is None:
+            cnt = z3.Int(fresh("count_selected"))
+            mask.meta["count_symbol"] = cnt
+            from .values import _CUR
+            ctx = _CUR[0]
+            if ctx is not None:
+                tot = z3.IntVal(1)
+                for d in mask.dims:
+                    tot = tot * d.size
+                ctx.assume(z3.And(cnt >= 0, cnt <= tot))
+        return [d.size for d in self.dims[: len(self.dims) - k]] + [cnt]
+
     def shape_tuple(self):
-        return VTuple([VNum(d.size) for d in self.dims], is_size=True)
+        return VTuple([VNum(e) for e in self.visible_extents()], is_size=True)
 
     def frozen(self):
         """snapshot of the current value: later in-place mutation of `self` does not affect the snapshot
@@ -1040,6 +1066,17 @@ def index_tensor(t, it, ctx, idx):
         items = items[:e] + fill + items[e + 1:]
     else:
         items = items + [VSlice(NONE, NONE, NONE)] * (len(t.dims) - n_consuming)
+    # x[..., mask] with a boolean mask over the trailing dims (all other items full slices): the selection is kept in place, tagged with
+    # its mask (see m_masked_select): an entry outside the mask is never observed
+    bools = [x for x in items if isinstance(x, VTensor) and x.sort == "bool"]
+    if len(bools) == 1 and isinstance(items[-1], VTensor) and items[-1] is bools[0] and all(
+            isinstance(x, VSlice) and x.start is NONE and x.stop is NONE and x.step is NONE for x in items[:-1]):
+        mask = bools[0]
+        lead = len(items) - 1
+        if lead + len(mask.dims) == len(t.dims):
+            r = VTensor(list(t.dims), t.elem, t.sort)
+            r.meta = {"masked_by": mask}
+            return r
     # multi-atom dims touched by a non-trivial index are flattened first
     src = t
     pos = 0
@@ -1647,6 +1684,45 @@ def m_any_all(is_any):
                 ctx.assume(z3.Implies(z3.Not(p), z3.And(t.in_range(ks), z3.Not(ew))))
             ctx.ghost.setdefault("witnesses", []).append(ks)
             return VTensor([], lambda idx: p, "bool")
+        if ctx.ghost.get("any_dim_as_predicate"):
+            # reduction over one dim as a fresh predicate P(rest) with the universally valid facts  any: elem(full) => P(rest)
+            # (all: P(rest) => elem(full)), instantiated by the contract, and a Skolem witness along the reduced dim for the converse
+            t = t.frozen()
+            pdim = norm_dim(ctx, t, dim)
+            if len(t.dims[pdim].atoms) != 1:
+                t = flatten_dim(t, pdim)
+            off = sum(len(d.atoms) for d in t.dims[:pdim])
+            nrest = t.natoms() - 1
+            P = z3.Function(fresh("anyd" if is_any else "alld"), *([z3.IntSort()] * nrest + [z3.BoolSort()])) if nrest else None
+            p0 = z3.Bool(fresh("anyd0")) if not nrest else None
+            W = z3.Function(fresh("wit"), *([z3.IntSort()] * nrest + [z3.IntSort()])) if nrest else None
+            w0 = ivar("w") if not nrest else None
+            n_red = t.dims[pdim].size
+
+            def bval(e):
+                return e if z3.is_bool(e) else (e != 0)
+
+            def pred(rest):
+                return P(*rest) if nrest else p0
+
+            def fact(idx, t=t):
+                rest = list(idx[:off]) + list(idx[off + 1:])
+                e = bval(t.elem(list(idx)))
+                return z3.Implies(t.in_range(idx), z3.Implies(e, pred(rest)) if is_any else z3.Implies(pred(rest), e))
+
+            ctx.ghost.setdefault("forall_facts", []).append((t.natoms(), fact))
+
+            def elem(rest, t=t):
+                rest = list(rest)
+                w = W(*rest) if nrest else w0
+                e = bval(t.elem(rest[:off] + [w] + rest[off:]))
+                if is_any:
+                    ctx.assume(z3.Implies(pred(rest), z3.And(w >= 0, w < n_red, e)))
+                else:
+                    ctx.assume(z3.Implies(z3.Not(pred(rest)), z3.And(w >= 0, w < n_red, z3.Not(e))))
+                return pred(rest)
+
+            return VTensor(t.dims[:pdim] + t.dims[pdim + 1:], elem, "bool")
         cnt = m_sum(pointwise(ctx, [t], lambda x: z3.If(x if z3.is_bool(x) else x != 0, z3.IntVal(1), z3.IntVal(0)), sort="int"),
                     it, ctx, [dim] if dim is not None else [], {})
         if is_any:
@@ -1680,6 +1756,12 @@ def m_permute(t, it, ctx, a, k):
 def m_size(t, it, ctx, a, k):
     if a or "dim" in k:
         d = a[0] if a else k["dim"]
+        if t.meta.get("masked_by") is not None:
+            ext = t.visible_extents()
+            cd = d.concrete() if isinstance(d, VNum) else d
+            if cd is None or not (-len(ext) <= cd < len(ext)):
+                raise PyRaise(VExc("IndexError", "Dimension out of range"))
+            return VNum(ext[cd])
         return VNum(t.dims[norm_dim(ctx, t, d)].size)
     return t.shape_tuple()
 
@@ -1836,7 +1918,9 @@ METHODS = {
     "tanh": _unary("tanh", _realfn("tanh"), "real"), "sigmoid": _unary("sigmoid", _realfn("sigmoid"), "real"),
     "log1p": _unary("log1p", _realfn("log1p"), "real"), "expm1": _unary("expm1", _realfn("expm1"), "real"),
     "erf": _unary("erf", _realfn("erf"), "real"), "reciprocal": _unary("reciprocal", lambda c, x: 1 / to_real(x), "real"),
-    "isnan": _unary("isnan", lambda c, x: z3.BoolVal(False), "bool"),
+    "isnan": _unary("isnan", lambda c, x: (to_real(x) == NANV) if (c is not None and c.ghost.get("nan_model")) else z3.BoolVal(False), "bool"),
+    "nan_to_num": lambda t, it, ctx, a, k: pointwise(ctx, [t], lambda x: z3.If(to_real(x) == NANV, to_real(k.get("nan", a[0] if a else VNum(0.0)).t), to_real(x))
+                                                     if ctx.ghost.get("nan_model") else x, sort="real"),
     "clamp": m_clamp, "clamp_min": lambda t, it, ctx, a, k: m_clamp(t, it, ctx, [a[0] if a else k["min"], NONE], {}),
     "clamp_max": lambda t, it, ctx, a, k: m_clamp(t, it, ctx, [NONE, a[0] if a else k["max"]], {}),
     "lt": _cmpm("<"), "le": _cmpm("<="), "gt": _cmpm(">"), "ge": _cmpm(">="), "eq": _cmpm("=="), "ne": _cmpm("!="),
